@@ -32,7 +32,11 @@ def run(ctx):
     fx = ctx.facts("A")
     w = W.World(fx, ["ruma_events", "ruma_common", "ruma_state_res"])
     spec = load_model()
-    dex = D.Dex(w.lookup, adt_discr=w.adt_discr, unroll=1, inline=lambda n: "{closure" in n)
+    # helpers may be written in terms of each other (user_can_ban_user = user_can_ban && outranks): other methods of the type are inlined,
+    # except the level getters that the scenarios assign values to
+    GETTERS = {"for_user", "for_message", "for_state", "for_action"}
+    dex = D.Dex(w.lookup, adt_discr=w.adt_discr, unroll=1,
+                inline=lambda n: "{closure" in n or (n.startswith(H) and "::" not in n[len(H):] and n[len(H):] not in GETTERS))
     rule = "C20.helpers"
     ctx.rule(rule, "helper(user[, target]) == the authorization model accepts the corresponding event from that user as a joined member, for every weak ordering of the levels")
 
@@ -100,13 +104,9 @@ def run(ctx):
                     "for_action maps each action to the level the rules compare; required level getters match event_power_level of the auth rules")
     f = w.fn(H + "for_user")
     ps = dex.paths(f, [D.sym("self"), D.sym("u")])
-    good = len(ps) == 1 and D.show(ps[0].ret).startswith("Option::map_or(BTreeMap::get(self.users, u), self.users_default, closure[")
-    if good:
-        clo = [x for x in _walk(ps[0].ret) if isinstance(x, tuple) and x and x[0] == "clo"]
-        sym = D.show(ps[0].ret)
-        cf = w.fn(sym[sym.index("closure[") + 8:sym.rindex("]")])
-        cps = dex.paths(cf, [D.sym("env"), D.sym("pl")])
-        good = len(cps) == 1 and D.show(cps[0].ret) == "pl"
+    # map_or / copied().unwrap_or / match all evaluate to: the users entry when present, users_default otherwise
+    rets = {U.true_variants(p).get("BTreeMap::get(self.users, u)"): D.show(p.ret) for p in ps}
+    good = rets == {"None": "self.users_default", "Some": "BTreeMap::get(self.users, u).Some.0"}
     ctx.check(good, rule2, f"{rule2}:for_user", w.where(f), bad_msg=f"{[D.show(p.ret)[:120] for p in ps]}")
     for name, default in (("for_message", "self.events_default"), ("for_state", "self.state_default")):
         f = w.fn(H + name)
